@@ -49,7 +49,15 @@ def _goroutine_inventory():
             "goroutine_entry_points_drift": {"new": [x for x in found if x not in rec], "gone": [x for x in rec if x not in found]}}
 
 
-_GEN = {"internal/zzverif/c19gen/gen.go": "c19/gen/gen.go", "internal/zzverif/c19gen/reload.go": "c19/gen/reload.go"}
+_GEN = {"internal/zzverif/c19gen/gen.go": "c19/gen/gen.go", "internal/zzverif/c19gen/reload.go": "c19/gen/reload.go",
+        "internal/zzverif/c19gen/bounds.go": "c19/gen/bounds.go"}
+
+# Bounds.  Every driver has its own watchdog (harness/c19/gen/bounds.go: quick 60-120 s, thorough x10) that ends the process
+# with "C19 DRIVER TIMEOUT: stream ..." - reported by the runner as "stream ...: driver failed"; child processes are limited to
+# 40-45 s.  "timeout" below is the runner's cap for BUILD + run of one stream (also handed to the driver as -test.timeout):
+# generous enough for a cold Go build cache, far below the runner's default of 1800 s.
+import sys
+_TIMEOUT = 1800 if "thorough" in sys.argv else 400
 
 
 def _ov(extra):
@@ -89,42 +97,42 @@ P = {
         # key store, trust store and request streams (no in-package access needed) share one driver binary
         "name": "misc", "pkg": "./internal/zzverif/c19gen", "test": "TestVerifC19Misc", "overlay": _KS,
         "eval_module": "Run.Eval_C19", "check_term": "check_misc " + _FX,
-        "n_quick": 460, "n_thorough": 9000, "findings": _KF, "env": _ENV,
+        "n_quick": 460, "n_thorough": 9000, "findings": _KF, "env": _ENV, "timeout": _TIMEOUT,
     }, {
         "name": "signer", "pkg": "./internal/rules/mechanisms/finalizers", "test": "TestVerifC19Signer",
         "overlay": _ov({"internal/rules/mechanisms/finalizers/zz_verif_c19_test.go": "c19/signer_test.go"}),
         "eval_module": "Run.Eval_C19", "check_term": "check_reload " + _FX,
-        "n_quick": 250, "n_thorough": 2500, "findings": _KF, "env": _ENV,
+        "n_quick": 250, "n_thorough": 2500, "findings": _KF, "env": _ENV, "timeout": _TIMEOUT,
     }, {
         "name": "tls", "pkg": "./internal/x/tlsx", "test": "TestVerifC19TLS",
         "overlay": _ov({"internal/x/tlsx/zz_verif_c19_test.go": "c19/tls_test.go"}),
         "eval_module": "Run.Eval_C19", "check_term": "check_reload " + _FX,
-        "n_quick": 150, "n_thorough": 1500, "findings": _KF, "env": _ENV,
+        "n_quick": 150, "n_thorough": 1500, "findings": _KF, "env": _ENV, "timeout": _TIMEOUT,
     }, {
         "name": "httpsig", "pkg": "./internal/rules/endpoint/authstrategy", "test": "TestVerifC19HttpSig",
         "overlay": _ov({"internal/rules/endpoint/authstrategy/zz_verif_c19_test.go": "c19/httpsig_test.go"}),
         "eval_module": "Run.Eval_C19", "check_term": "check_reload " + _FX,
-        "n_quick": 200, "n_thorough": 2500, "findings": _KF, "env": _ENV,
+        "n_quick": 200, "n_thorough": 2500, "findings": _KF, "env": _ENV, "timeout": _TIMEOUT,
     }, {
         "name": "watchloop", "pkg": "./internal/watcher", "test": "TestVerifC19WatchLoop",
         "overlay": _ov({"internal/watcher/zz_verif_c19_test.go": "c19/watchloop_test.go"}),
         "eval_module": "Run.Eval_C19", "check_term": "check_wloop " + _FX,
-        "n_quick": 3, "n_thorough": 3, "findings": _KF, "env": _ENV,
+        "n_quick": 3, "n_thorough": 3, "findings": _KF, "env": _ENV, "timeout": _TIMEOUT,
     }, {
         "name": "k8s", "pkg": "./internal/rules/provider/kubernetes", "test": "TestVerifC19K8s",
         "overlay": _ov({"internal/rules/provider/kubernetes/zz_verif_c19_test.go": "c19/k8s_test.go"}),
         "eval_module": "Run.Eval_C19", "check_term": "check_k8s " + _FX,
-        "n_quick": 60, "n_thorough": 2000, "findings": _KF, "env": _ENV,
+        "n_quick": 60, "n_thorough": 2000, "findings": _KF, "env": _ENV, "timeout": _TIMEOUT,
     }, {
         "name": "rules", "pkg": "./internal/rules", "test": "TestVerifC19Rules",
         "overlay": _ov({"internal/rules/zz_verif_c19_test.go": "c19/rules_test.go"}),
         "eval_module": "Run.Eval_C19", "check_term": "check_rules " + _FX,
-        "n_quick": 200, "n_thorough": 4000, "findings": _KF, "env": _ENV, "shard": 320,
+        "n_quick": 200, "n_thorough": 4000, "findings": _KF, "env": _ENV, "timeout": _TIMEOUT, "shard": 320,
     }, {
         "name": "fs", "pkg": "./internal/rules/provider/filesystem", "test": "TestVerifC19FS",
         "overlay": _ov({"internal/rules/provider/filesystem/zz_verif_c19_test.go": "c19/fs_test.go"}),
         "eval_module": "Run.Eval_C19", "check_term": "check_fs " + _FX,
-        "n_quick": 200, "n_thorough": 4000, "findings": _KF, "env": _ENV,
+        "n_quick": 200, "n_thorough": 4000, "findings": _KF, "env": _ENV, "timeout": _TIMEOUT,
     }],
     "extra_coverage": _goroutine_inventory,
     "rule": "six drivers / eight streams against the real code. keystore/truststore: compositions of 24 fixture PEM blocks (RSA 1024-4096, EC P-224..P-521, "
